@@ -67,6 +67,8 @@ type Object struct {
 	// poison: bytes at index >= poisonFrom (term) must not be read
 	poisonFrom *Term
 	inputName  string
+	// native: a Go value held on behalf of a model (e.g. a compiled *regexp.Regexp)
+	native any
 }
 
 func (o *Object) clone() *Object {
